@@ -70,6 +70,13 @@ pub fn parse_record<const H: usize>(
         });
     }
 
+    if payload_len < H {
+        // A valid record always holds its fixed-size header: the length field is corrupt.
+        return Err(ReadError::Crc32cMismatch {
+            offset: offset as u64,
+        });
+    }
+
     let payload = &bytes[payload_offset..payload_offset + payload_len];
     let header: [u8; H] = payload[..H].try_into().unwrap();
     let compressed_data = &payload[H..];
